@@ -505,3 +505,8 @@ func (c12) Run(plan interface{}, schedSeed uint64, replay []simrt.Choice, lenien
 	v.Sample = map[string]interface{}{"tasks": len(p.Tasks), "channel_ids": ids, "unknown_injected": unknownSent, "steps": out.Steps, "strategy": p.Knobs.Strategy}
 	return v, out
 }
+
+// RequiredProbes: a batch in which one of these never fired explored nothing of that kind (exit 2, not a pass).
+func (c12) RequiredProbes() []string {
+	return []string{"concurrent-newchannel-or-close", "interleaved-responses"}
+}
